@@ -13,6 +13,13 @@ independent brute-force oracle for `_value_range`.
      (a product/sum of positive terms is at least each of its axes).  A non-None `_value_range` must describe it exactly
      — the statement `valueRange_spec` proves for the model.
 
+ (D) whole `cse`: the real `stage2.cse` is wrapped during the same real calls; every (expressions, options, result) is
+     compared structurally with the model `cseTrees` (Lean, `Solve/CseTrees.lean`, driver kind `cse_trees`): candidate
+     search, filters, selection order and tree surgery.  `unnamed.<uuid>` names are renamed canonically (first
+     occurrence) on both sides.  Plus generated forests built with the real constructors (shared sub-expressions,
+     slices, concatenations, brackets, `min_value > 1`, valued axes, both options) on which the real `cse` is called
+     directly; an exception of the real code must be an `ok: false` of the model and vice versa.
+
 A disagreement is a broken tie (`ctx.tie_broken`), which enlarges the budget of the C02 search; a value wrongly claimed by
 `_value_range` is also turned into a concrete call (`matches("(E), (E)", n, n)`) that `run_cse` returns and the C02 check
 judges with its own oracle like any other case.
@@ -38,6 +45,25 @@ def vexpr_json(e, S):
     if isinstance(e, S.Brackets):
         return {"t": "br", "e": vexpr_json(e.inner, S)}
     raise TypeError(type(e))
+
+
+def rename_json(j, ren):
+    """canonical names for `unnamed.<uuid>` axes (first occurrence in `ren`, which is extended)"""
+    if j is None:
+        return None
+    t = j["t"]
+    if t == "axis":
+        n = j["n"]
+        if n.startswith("unnamed."):
+            n = ren.setdefault(n, f"unnamed.{len(ren)}")
+        return {"t": "axis", "n": n, "v": j["v"], "min": j["min"]}
+    if t in ("list", "concat"):
+        return {"t": t, "c": [rename_json(c, ren) for c in j["c"]]}
+    return {"t": t, "e": rename_json(j["e"], ren)}
+
+
+def forest_json(exprs, S, ren):
+    return [None if e is None else rename_json(vexpr_json(e, S), ren) for e in exprs]
 
 
 def canon_range(r):
@@ -68,6 +94,8 @@ class Wrap:
         self.M, self.S = M, S
         self.vr, self.rep = M._value_range, M._has_repeated_axis
         self.seen_vr, self.seen_rep = {}, {}
+        self.cse = S.cse
+        self.seen_cse = {}
 
     def __enter__(self):
         import json
@@ -83,13 +111,23 @@ class Wrap:
             j = vexpr_json(list(exprlist), self.S)
             self.seen_rep.setdefault(json.dumps(j, sort_keys=True), (j, bool(r)))
             return r
+        def cse(expressions, cse_concat=True, cse_in_brackets=False, verbose=False):
+            expressions = list(expressions)
+            ren = {}
+            jin = forest_json(expressions, self.S, ren)
+            r = self.cse(expressions, cse_concat=cse_concat, cse_in_brackets=cse_in_brackets, verbose=verbose)
+            rec = {"roots": jin, "cse_concat": bool(cse_concat), "cse_in_brackets": bool(cse_in_brackets)}
+            self.seen_cse.setdefault(json.dumps(rec, sort_keys=True), (rec, {"ok": True, "out": forest_json(list(r), self.S, ren)}))
+            return r
         self.M._value_range = vr
         self.M._has_repeated_axis = rep
+        self.S.cse = cse
         return self
 
     def __exit__(self, *a):
         self.M._value_range = self.vr
         self.M._has_repeated_axis = self.rep
+        self.S.cse = self.cse
 
 
 FIXED_CALLS = [
@@ -112,6 +150,23 @@ FIXED_CALLS = [
     ("id", "(a + b) c -> c (a + b)", [[5, 2]], {}),
     ("sum", "a [(b c)]", [[2, 6]], {}),
     ("matches", "(a... ) b, (a...)", [[6, 2], [6]], {}),
+    # whole-cse stream (D): slices, overlapping slices, nested candidates, single occurrences, both options
+    ("matches", "(a b c 3) d, (a b c 3)", [[18, 2], [18]], {}),
+    ("matches", "(a b c) (a b), d", [[8, 4], [3]], {}),
+    ("matches", "(x a b) (a b) y", [[8, 4, 3]], {}),
+    ("solve_shapes", "((a + b) c (d + e)) f", [[12, 2]], {"a": 1, "d": 1}),
+    ("solve_shapes", "(a b) cse..., (a b)", [[6, 2, 3], [6]], {}),
+    ("id", "a... (b c) -> (b c) a...", [[2, 3, 6]], {"b": 2}),
+    ("id", "(a b) (c d) -> (c d) (a b)", [[6, 4]], {}),
+    ("id", "b (s p) c -> b s (p c)", [[2, 6, 3]], {"p": 2}),
+    ("sum", "a [(b c)] (d e)", [[2, 6, 4]], {}),
+    ("sum", "a [c d] ([c d])", [[4, 2, 3, 6]], {}),
+    ("sum", "a ([c d]) [c d]", [[4, 6, 2, 3]], {}),
+    ("sum", "([b c] d) [e]", [[12, 5]], {"d": 2}),
+    ("mean", "b [s...] (c d)", [[2, 3, 4, 6]], {"c": 2}),
+    ("add", "(a b) c, (a b) -> (a b) c", [[6, 2], [6]], {}),
+    ("add", "a (b + c), (b + c) -> a (b + c)", [[2, 5], [5]], {}),
+    ("dot", "a (b c), (b c) d -> a d", [[2, 6], [6, 5]], {}),
 ]
 
 
@@ -163,6 +218,156 @@ def gen_arg(rng, S):
     if rng.random() < 0.5:
         return [gen_tree(rng, S, names, depth, counter) for _ in range(rng.choice([1, 2, 2, 3, 4]))]
     return gen_tree(rng, S, names, depth, counter)
+
+
+# ------------------------------------------------------------------ (D) whole `cse`: generated forests
+
+def gen_forest(rng, S):
+    """Expressions for `cse`, built with the real classes: a pool of sub-expressions is placed (as deep copies) several
+    times, inside flattened axes / brackets / concatenations and as runs of children of longer lists, so that dict
+    entries with several exprlists, overlapping slices and nested candidates occur; plus shape-like roots and `None`."""
+    names = ["a", "b", "c", "d", "e", "f", "g", "h"][:rng.choice([3, 4, 6, 8])]
+    counter = [0]
+
+    def axis():
+        k = rng.random()
+        if k < 0.22:
+            counter[0] += 1
+            return S.Axis(f"unnamed.{counter[0]}", rng.choice([1, 1, 2, 3]), [])
+        if k < 0.25:
+            return S.Axis(rng.choice(["cse.0", "cse.1"]), None, [])
+        mn = 1 if rng.random() < 0.88 else rng.choice([2, 3])
+        return S.Axis(rng.choice(names), None, [], min_value=mn)
+
+    def unit(depth):
+        """ndim-1 node"""
+        k = rng.random()
+        if depth <= 0 or k < 0.5:
+            return axis()
+        if k < 0.8:
+            return S.FlattenedAxis.create(S.List.create(run(depth - 1), []), [])
+        if k < 0.92:
+            return S.ConcatenatedAxis.create([unit(depth - 1) for _ in range(rng.choice([2, 2, 3]))], [])
+        return S.Brackets.create(unit(depth - 1), [])
+
+    def run(depth):
+        return [unit(depth) for _ in range(rng.choice([0, 1, 2, 2, 3, 3, 4]))]
+
+    pool = [run(rng.choice([0, 1, 1, 2])) for _ in range(rng.choice([1, 2, 3]))]
+    pool = [p for p in pool if p]
+
+    def with_pool(depth):
+        """a run of nodes containing pool copies"""
+        out = []
+        for _ in range(rng.choice([1, 2, 2, 3])):
+            k = rng.random()
+            if pool and k < 0.55:
+                out += [c.__deepcopy__() for c in rng.choice(pool)]
+            else:
+                out.append(unit(depth))
+        return out
+
+    roots = []
+    for _ in range(rng.choice([1, 2, 2, 3])):
+        items = []
+        for _ in range(rng.choice([1, 2, 2, 3])):
+            k = rng.random()
+            if k < 0.55:
+                items.append(S.FlattenedAxis.create(S.List.create(with_pool(1), []), []))
+            elif k < 0.7:
+                inner = S.List.create(with_pool(1), [])
+                items.append(S.Brackets.create(inner, []))
+            elif k < 0.8 and pool:
+                items += [c.__deepcopy__() for c in rng.choice(pool)]
+            else:
+                items.append(unit(2))
+        roots.append(S.List.create(items, []))
+    second = []
+    for r in roots:
+        k = rng.random()
+        if k < 0.4:
+            second.append(None)
+        else:
+            dims = []
+            for _ in range(r.ndim):
+                counter[0] += 1
+                dims.append(S.Axis(f"unnamed.{counter[0]}", rng.choice([1, 2, 3, 4, 6]), []))
+            second.append(S.List.create(dims, []))
+    if rng.random() < 0.3:
+        counter[0] += 1
+        roots.append(S.Axis(rng.choice(names), None, []))
+        second.append(S.Axis(f"unnamed.{counter[0]}", rng.choice([2, 3]), []))
+    return roots + second
+
+
+def count_cse_axes(forest):
+    n = 0
+
+    def walk(j):
+        nonlocal n
+        if j is None:
+            return
+        if j["t"] == "axis":
+            n += j["n"].startswith("cse.")
+        elif j["t"] in ("list", "concat"):
+            for c in j["c"]:
+                walk(c)
+        else:
+            walk(j["e"])
+    for j in forest:
+        walk(j)
+    return n
+
+
+def render_forest(forest):
+    return ", ".join("None" if j is None else render(j) for j in forest)
+
+
+def run_cse_trees(ctx, w, S, M):
+    """(D): model `cseTrees` vs the real `cse` on captured and generated expressions."""
+    import json
+    items = list(w.seen_cse.values())
+    ctx.count("cse_trees:captured-calls", len(items))
+    n_gen = 300 if ctx.quick else 4000
+    for _ in range(n_gen):
+        forest = gen_forest(ctx.rng, S)
+        opts = {"cse_concat": ctx.rng.random() < 0.7, "cse_in_brackets": ctx.rng.random() < 0.4}
+        ren = {}
+        rec = {"roots": forest_json(forest, S, ren), **opts}
+        try:
+            out = {"ok": True, "out": forest_json(list(w.cse(forest, **opts)), S, ren)}
+        except (ValueError, TypeError) as e:
+            out = {"ok": False, "error": type(e).__name__}
+        items.append((rec, out))
+    ctx.count("cse_trees:generated-forests", n_gen)
+    if not ctx.driver_ok:
+        return
+    drv = ctx.driver()
+    answers = drv.ask_many([{"kind": "cse_trees", **rec} for rec, _ in items])
+    n_sub = 0
+    for (rec, real), a in zip(items, answers):
+        nontrivial = False
+        if real["ok"]:
+            k = count_cse_axes(real["out"]) - count_cse_axes(rec["roots"])
+            n_sub += max(k, 0)
+            nontrivial = k > 0
+            ctx.count("cse_trees:substitutions=" + ("<0" if k < 0 else str(k) if k < 3 else "3+"))
+        else:
+            ctx.count("cse_trees:real-raises:" + real["error"])
+        ctx.count(f"cse_trees:opts:concat={rec['cse_concat']},in_brackets={rec['cse_in_brackets']}")
+        ctx.case("cse_trees:" + json.dumps(rec, sort_keys=True), nontrivial=nontrivial)
+        same = (a["ok"] == real["ok"]) and (not real["ok"] or a["out"] == real["out"])
+        if not same:
+            ctx.tie_broken("correspondence:cse_trees",
+                           f"cse({render_forest(rec['roots'])!r}, cse_concat={rec['cse_concat']}, cse_in_brackets={rec['cse_in_brackets']}): "
+                           f"real {render_forest(real['out']) if real['ok'] else real['error']!r}, "
+                           f"model {render_forest(a['out']) if a['ok'] else a['error']!r}")
+    ctx.extra["cse_trees_substitutions_compared"] = n_sub
+    if len(w.seen_cse) == 0:
+        ctx.tie_broken("correspondence:cse_trees", "no call of stage2.cse was captured (the wrapper on the package attribute was never reached)")
+    for rec, real in items[:2]:
+        if real["ok"]:
+            ctx.sample({"cse_of": render_forest(rec["roots"]), "real": render_forest(real["out"])})
 
 
 # ------------------------------------------------------------------ (C) brute-force oracle
@@ -334,6 +539,7 @@ def run_cse(ctx):
         ctx.count("cse:repeated:" + str(r))
         if a["repeated"] != r:
             ctx.tie_broken("correspondence:has_repeated_axis", f"{render(j)!r}: real {r}, model {a['repeated']}")
+    run_cse_trees(ctx, w, S, M)
     if items_vr:
         j, r = items_vr[min(len(items_vr) - 1, 3)]
         ctx.sample({"value_range_of": render(j), "real": r})
